@@ -94,6 +94,8 @@ fn name_strategy() -> impl Strategy<Value = String> {
         3 => ("[A-Z]{1,5}", "[a-z]{0,5}", prop_oneof![4 => Just(""), 1 => Just("1"), 1 => Just("2")]).prop_map(|(u, l, s)| format!("{u}{l}{s}")),
         1 => "[A-Z]{12}",
         1 => "[A-Z]",
+        // the underscore 488.2 allows in a mnemonic: inside the short form, at its end, inside the optional tail
+        1 => prop_oneof!["[A-C]{1,2}_[A-C]{1,2}[a-c]{0,2}", "[A-C]{1,3}_[a-c]{1,3}", "[A-C]{1,3}[a-c]{1,2}_[a-c]{1,2}", "[A-Z]{2,4}_[a-z]{2,4}[12]?"],
     ]
 }
 
